@@ -236,6 +236,35 @@ Proof.
            m_sense_law m_key_law).
 Qed.
 
+Theorem trcl_phase_den_linked :
+  forall fuel keys (s s' : x_state),
+  fresh_ok motion wfentry s -> s_cache s = nil -> NoDup keys -> all_ref_free motion wfentry s ->
+  trcl_phase motion wfentry m_empty m_eqb m_tr_surf fuel keys s = Ok s' ->
+  fresh_ok motion wfentry s' /\ s_cache s' = nil /\ surf_extends motion wfentry s s' /\
+  all_ref_free motion wfentry s' /\
+  (forall k cl, In k keys -> dget k (s_cells s) = Some cl ->
+     exists g', dget k (s_cells s') = Some (with_geom cl g') /\
+       forall p b, Den motion wfentry R3 m_sense s (act_seq motion R3 m_empty m_inv (c_trcl cl) p)
+                       (c_geom cl) b ->
+                   Den motion wfentry R3 m_sense s' p g' b) /\
+  (forall k, ~ In k keys -> dget k (s_cells s') = dget k (s_cells s)).
+Proof.
+  exact (trcl_phase_den motion wfentry R3 m_empty m_eqb m_tr_surf m_inv m_sense
+           m_sense_law m_key_law).
+Qed.
+
+Theorem cell_transform_den_linked :
+  forall fuel k t cache (s : x_state) k' s',
+  Inv motion wfentry R3 m_empty m_inv m_sense s ->
+  cell_transform motion wfentry m_empty m_eqb m_tr_surf fuel k t cache s = Ok (k', s') ->
+  Inv motion wfentry R3 m_empty m_inv m_sense s' /\ extends motion wfentry s s' /\
+  forall p b, Den motion wfentry R3 m_sense s (act motion R3 m_empty m_inv t p) (TRef k) b ->
+              Den motion wfentry R3 m_sense s' p (TRef k') b.
+Proof.
+  exact (cell_transform_den motion wfentry R3 m_empty m_eqb m_tr_surf m_inv m_sense
+           m_sense_law m_key_law).
+Qed.
+
 (* ---- non-vacuity: a plane, a translation, and the law at two points ---------------------------- *)
 Definition idm3 : M3 R := mkV (mkV 1 0 0) (mkV 0 1 0) (mkV 0 0 1).
 
